@@ -17,9 +17,10 @@
 (* and a binary exponent e (the record is multiplied by 2^e, which is      *)
 (* exact in binary floating point); a token declares the degree of each    *)
 (* output and MaxDeg, the largest degree of any quantity the algorithm     *)
-(* has to form.  TLC decides which (token, e) are admissible - every       *)
-(* quantity up to MaxDeg stays inside the normal range of a double,        *)
-(* 2^-1022 .. 2^1023, with Margin bits to spare for the magnitude of the   *)
+(* has to form.  TLC decides which (token, e, precision) are admissible -   *)
+(* every quantity up to MaxDeg stays inside the normal range of the        *)
+(* precision the samples are stored in (double: 2^-1022 .. 2^1023, single: *)
+(* 2^-126 .. 2^127), with Margin bits to spare for the magnitude of the    *)
 (* unscaled record and its sums - and enumerates them; each state is       *)
 (* replayed and the result, divided by 2^(d e), compared with the result   *)
 (* for e = 0.                                                              *)
@@ -36,11 +37,15 @@ Exponents == Magnitudes \cup {-m : m \in Magnitudes}
 
 MaxDeg(t) == IF t \in Deg1 THEN 1 ELSE IF t \in Deg4 THEN 4 ELSE IF t \in Deg8 THEN 8 ELSE 2
 
-Admissible(t, e) == Abs(e) * MaxDeg(t) + Margin <= 1022
+\* the precision the samples are stored in: binary exponent range of its normal numbers
+Precisions == {"double", "single"}
+Range(p) == IF p = "double" THEN 1022 ELSE 126
+
+Admissible(t, e, p) == Abs(e) * MaxDeg(t) + Margin <= Range(p)
 
 \* the most extreme admissible exponents of a token: where a quantity of too high a degree leaves the range first
-Extreme(t, e) == /\ Admissible(t, e)
-                 /\ \A f \in Exponents : (Admissible(t, f) /\ (f < 0) = (e < 0)) => Abs(f) <= Abs(e)
+Extreme(t, e, p) == /\ Admissible(t, e, p)
+                    /\ \A f \in Exponents : (Admissible(t, f, p) /\ (f < 0) = (e < 0)) => Abs(f) <= Abs(e)
 
 VARIABLES phase, call, res
 vars == <<phase, call, res>>
@@ -48,16 +53,16 @@ None == [none |-> TRUE]
 
 Init == phase = "idle" /\ call = None /\ res = None
 
-Call(t, e) == /\ phase = "idle"
-              /\ Admissible(t, e)
-              /\ phase' = "called"
-              /\ call' = [token |-> t, exp |-> e, extreme |-> Extreme(t, e)]
-              /\ res' = [token |-> t, shift |-> e]    \* the envelope: the e = 0 result, each output shifted by degree * e bits
+Call(t, e, p) == /\ phase = "idle"
+                 /\ Admissible(t, e, p)
+                 /\ phase' = "called"
+                 /\ call' = [token |-> t, exp |-> e, prec |-> p, extreme |-> Extreme(t, e, p)]
+                 /\ res' = [token |-> t, shift |-> e]    \* the envelope: the e = 0 result (same precision), each output shifted by degree * e bits
 
-Next == \E t \in 1..NTokens, e \in Exponents : Call(t, e)
+Next == \E t \in 1..NTokens, e \in Exponents, p \in Precisions : Call(t, e, p)
 Spec == Init /\ [][Next]_vars
 
 UnitFree == phase = "called" => res = [token |-> call.token, shift |-> call.exp]
 \* vacuity guard: every token has an admissible exponent on either side of 0
-ASSUME \A t \in 1..NTokens : (\E e \in Exponents : e < 0 /\ Admissible(t, e)) /\ (\E e \in Exponents : e > 0 /\ Admissible(t, e))
+ASSUME \A t \in 1..NTokens : (\E e \in Exponents : e < 0 /\ Admissible(t, e, "double")) /\ (\E e \in Exponents : e > 0 /\ Admissible(t, e, "double"))
 =============================================================================
